@@ -145,3 +145,26 @@ def record_replay(kind: str, cap: int, N: int, adds: list, samples: list, seed: 
             do_samples(n + 1)
     return {"cap": cap, "N": N, "empty": empty, "events": events,
             "meta": {"kind": kind, "vmapped": vmapped}}
+
+
+def sparse_ring_probe(cap: int, stored: int, n_keys: int, seed: int) -> dict:
+    """A huge ring of which only a part is written; sample(batch = number of stored rows) - the batch has to exhaust the stored
+    rows - for several keys.  Whatever weight an implementation leaves on an unwritten slot competes here with the *least* lucky
+    of `stored` rows on behalf of `cap - stored` slots (a leak of 1e-8 per slot shows in every second draw at cap = 2**23,
+    stored = 2**20), while the small rings of the trace-validated cases would never show it."""
+    from lerax.buffer import ReplayBuffer
+    obs_space, act_space = Box(-8.0, 8.0, shape=()), Discrete(NA)
+    buf = ReplayBuffer(cap, obs_space, act_space, None)
+
+    @eqx.filter_jit
+    def fill(b):
+        def push(b, i):
+            tag = (i % 7 + 1).astype(jnp.float32)           # 1..7; unwritten slots keep reward 0
+            return b.add(tag, tag + 0.5, jnp.asarray(1), 100.0 + tag, False, False, None, None), None
+        return jax.lax.scan(push, b, jnp.arange(stored))[0]
+    buf = fill(buf)
+    draw = eqx.filter_jit(lambda b, k: jnp.sum(b.sample(stored, key=k).rewards < 100.5))
+    bad = [int(draw(buf, k)) for k in jr.split(jr.key(seed), n_keys)]
+    return {"atoms": {"BatchExhaustingTheStoredRowsOfAHugeRingHoldsStoredRowsOnly": bool(sum(bad) == 0)},
+            "meta": {"capacity": cap, "stored": stored, "batch": stored, "keys": n_keys, "draws": stored * n_keys,
+                     "draws_of_unwritten_slots": int(sum(bad))}}
